@@ -2,7 +2,7 @@
 # tools/process_mutant.sh <ID> [extra check ids...]: confirms the seeded change in /tmp/w10-<ID> (verify_mutant.sh), then,
 # holding a lock on /repo, runs the property's own quick check against it (try_mutant.sh).  One line of result each.
 id="$1"; shift
-wt="${WT_PREFIX:-/tmp/w10-}$id"
+wt="${WT_PREFIX:-/tmp/w11-}$id"
 cd /verif
 tools/verify_mutant.sh "$wt" "$id" > "$wt/verify.log" 2>&1
 cat "$wt/verify.log" | tail -1
